@@ -104,7 +104,19 @@ func (*PgQueryDBDataCoder) Encode(aConst *pg_query.A_Const, data []byte, setting
 		if setting.GetDBDataTypeID() != 0 && setting.GetDBDataTypeID() != pgtype.ByteaOID {
 			// valid strings we pass as is without extra encoding
 			if utils.IsPrintablePostgresqlString(data) {
-				aConst.GetFval().Fval = string(data)
+				// a numeric constant is printed without quotes: keep it numeric only if the new value is a number,
+				// otherwise it has to become a string constant (quoted and escaped by the deparser)
+				if _, err := strconv.ParseFloat(string(data), 64); err == nil {
+					aConst.GetFval().Fval = string(data)
+					return nil
+				}
+				*aConst = pg_query.A_Const{
+					Val: &pg_query.A_Const_Sval{
+						Sval: &pg_query.String{
+							Sval: string(data),
+						},
+					},
+				}
 				return nil
 			}
 		}
